@@ -20,8 +20,9 @@ func init() {
 				"C17.diff (eventDiff asks ParticipantEvents(peer, otherKnown[id] or -1) per known creator, sorts by topological index ascending before returning; the sync handler truncates to a prefix), " +
 				"C17.submit (a submitted transaction only reaches core.addTransactions; self-events are created only through babble — entered only in state Babbling — and the gated eager-sync handler), " +
 				"C17.suspend (checkSuspend is called on every tick in babble; Suspend() is reached only under undetermined-events > SuspendLimit x validators or the eviction condition; Suspend transitions before waiting for routines). " +
+				"C17.selfremoved (a node learns that it was voted out by an identity test on IDs: core.removedRound is set exactly under Peer.ID()==validator.ID(), and no comparison anywhere mixes a raw Peer.PubKeyHex with a canonical key string). " +
 				"NOT decided: overshoot of the threshold by concurrent routines, requests already past the gate when the state changes."},
-		Rules: []ruleFunc{c17gate, c17readonly, c17diff, c17submit, c17suspend},
+		Rules: []ruleFunc{c17gate, c17readonly, c17diff, c17submit, c17suspend, func(p *Prog, r *Report) { selfRemovedRule(p, r, "C17.selfremoved") }},
 	})
 }
 
@@ -692,4 +693,124 @@ func c17suspend(p *Prog, r *Report) {
 	}
 	r.Check(okSet, rule, "transition:state-set-unconditionally", p.pos(trf.Pos()), fnName(trf), "SetState(state) is executed on every path through transition",
 		"Node.transition can return without storing the new state (e.g. when the application's OnStateChanged callback fails): a node that must suspend (too many undetermined events, evicted) stays Babbling and keeps creating events")
+}
+
+/* ---------- C17.selfremoved ---------- */
+
+// selfRemovedRule: a node learns that it was voted out from the receipt of its own leave
+// transaction. The test "is this removal mine?" is an identity test on peer IDs (the ID is derived
+// from the key BYTES; the spelling of the key in a peers file or in a transaction is not canonical).
+//  - core.removedRound receives the effective round exactly under Peer.ID() == validator.ID();
+//  - nowhere in the module is a raw Peer.PubKeyHex compared (==, !=) with a canonical key string
+//    (Validator.PublicKeyHex(), keys.PublicKeyHex(...), Event.Creator()).
+func selfRemovedRule(p *Prog, r *Report, rule string) {
+	r.Rule(rule, 2, "core.removedRound is set exactly under txBody.Peer.ID() == validator.ID(); no comparison mixes a raw Peer.PubKeyHex with a canonical key string")
+	fn := p.Func(NODE, "core", "processAcceptedInternalTransactions")
+	fRR := p.Field(NODE, "core", "removedRound")
+	if fn == nil || fRR == nil {
+		r.Anchor(rule, "core.processAcceptedInternalTransactions / core.removedRound")
+		return
+	}
+	isIDOf := func(v ssa.Value, recvType string) bool {
+		c, _ := callOf(v)
+		if c == nil {
+			return false
+		}
+		f := calleeFunc(c.Common())
+		return f != nil && f.Name() == "ID" && recvNamed(f) == recvType
+	}
+	qSelf := func(l Lit) bool {
+		x, y, ok := eqLit(l)
+		if !ok {
+			return false
+		}
+		return (isIDOf(x, "Peer") && isIDOf(y, "Validator")) || (isIDOf(y, "Peer") && isIDOf(x, "Validator"))
+	}
+	n, okGuard, okConverse, where := 0, true, true, p.pos(fn.Pos())
+	loops := naturalLoops(fn)
+	for _, w := range p.writersOf(fRR) {
+		if w.Fn != fn {
+			continue
+		}
+		n++
+		if g, _ := p.allPaths(w.Instr, []Pred{qSelf}, all(1)); !g {
+			okGuard = false
+			where = p.ipos(w.Instr)
+		}
+		// conversely: once the identity test succeeded, the round is recorded before the iteration ends
+		lp := innermostLoop(loops, w.Instr.Block())
+		for _, b := range fn.Blocks {
+			if len(b.Succs) != 2 {
+				continue
+			}
+			for _, s := range b.Succs {
+				l, ok := edgeLit(b, s)
+				if !ok || !qSelf(l) {
+					continue
+				}
+				var targets []*ssa.BasicBlock
+				if lp != nil {
+					targets = append(targets, lp.head)
+				}
+				for _, t := range fn.Blocks {
+					if len(t.Instrs) > 0 {
+						if _, isRet := t.Instrs[len(t.Instrs)-1].(*ssa.Return); isRet {
+							targets = append(targets, t)
+						}
+					}
+				}
+				for _, t := range targets {
+					if s != w.Instr.Block() && reachesAvoiding(s, t, w.Instr.Block()) {
+						okConverse = false
+						where = p.ipos(w.Instr)
+					}
+				}
+			}
+		}
+	}
+	r.Check(n > 0 && okGuard && okConverse, rule, "removedRound:set-iff-own-ID", where, fnName(fn), "the removal round is recorded exactly when the removed peer's ID is the validator's",
+		"core.removedRound is not set exactly under Peer.ID() == validator.ID(): a node whose key is spelled differently in the leave transaction (lower-case hex, no 0X prefix) never learns that it was voted out, stays Babbling and keeps creating events after its removal")
+	okCmp, whereC := true, "-"
+	raw := func(v ssa.Value) bool {
+		return flowsFromLocal(v, func(x ssa.Value) bool {
+			fv, _ := fieldOf(x)
+			return fv != nil && refName(fv) == "PubKeyHex"
+		})
+	}
+	canonical := func(v ssa.Value) bool {
+		return flowsFromLocal(v, func(x ssa.Value) bool {
+			c, _ := callOf(x)
+			if c == nil {
+				return false
+			}
+			f := calleeFunc(c.Common())
+			if f == nil {
+				return false
+			}
+			switch {
+			case f.Name() == "PublicKeyHex":
+				return true
+			case f.Name() == "Creator" && recvNamed(f) == "Event":
+				return true
+			case f.Name() == "ValidatorHex":
+				return true
+			}
+			return false
+		})
+	}
+	for _, f := range p.Mod {
+		for _, b := range f.Blocks {
+			for _, in := range b.Instrs {
+				bo, ok := in.(*ssa.BinOp)
+				if !ok || (bo.Op != token.EQL && bo.Op != token.NEQ) {
+					continue
+				}
+				if (raw(bo.X) && canonical(bo.Y)) || (raw(bo.Y) && canonical(bo.X)) {
+					okCmp = false
+					whereC = p.ipos(bo)
+				}
+			}
+		}
+	}
+	r.Check(okCmp, rule, "key-spelling:raw-vs-canonical", whereC, "", "no comparison of a raw key spelling with a canonical one", "a raw Peer.PubKeyHex is compared with a canonical key string: equal keys spelled differently compare unequal")
 }
